@@ -14,6 +14,7 @@ import (
 	"github.com/smart-core-os/sc-api/go/types"
 
 	"github.com/smart-core-os/sc-golang/internal/minibus"
+	"github.com/smart-core-os/sc-golang/internal/verifhook"
 )
 
 type Collection struct {
@@ -155,6 +156,7 @@ func (c *Collection) Update(id string, msg proto.Message, opts ...WriteOption) (
 		changeType = types.ChangeType_ADD
 		oldValue = nil
 	}
+	verifhook.At("col.update.beforePublish", &c.mu, newValue)
 	c.bus.Send(context.TODO(), &CollectionChange{
 		Id:         id,
 		ChangeTime: writeRequest.updateTime(c.clock),
@@ -179,6 +181,7 @@ func (c *Collection) Delete(id string, opts ...WriteOption) (proto.Message, erro
 	c.mu.RLock()
 	oldVal, exists := c.byId[id]
 	c.mu.RUnlock()
+	verifhook.At("col.delete.afterRead", &c.mu, id)
 
 	for attempt := 0; attempt < 5; attempt++ {
 		if !exists {
@@ -196,6 +199,7 @@ func (c *Collection) Delete(id string, opts ...WriteOption) (proto.Message, erro
 			return oldVal.body, ExpectedValuePreconditionFailed
 		}
 
+		verifhook.At("col.delete.beforeLock", &c.mu, id)
 		c.mu.Lock()
 		oldVal2, exists2 := c.byId[id]
 		if oldVal2 != oldVal || exists2 != exists {
@@ -207,6 +211,7 @@ func (c *Collection) Delete(id string, opts ...WriteOption) (proto.Message, erro
 
 		// actually do the delete
 		delete(c.byId, id)
+		verifhook.At("col.delete.committed", &c.mu, id)
 		c.bus.Send(context.TODO(), &CollectionChange{
 			Id:         id,
 			ChangeTime: c.clock.Now(),
@@ -317,6 +322,7 @@ func (c *Collection) onUpdate(ctx context.Context, config *ReadRequest) (<-chan 
 		res = c.itemSlice(config)
 	}
 
+	verifhook.At("col.sub.afterSnapshot", &c.mu, nil)
 	ch := c.bus.Listen(ctx)
 	if !config.Backpressure {
 		ch = mergeCollectionExcess(ch)
